@@ -1,0 +1,18 @@
+//go:build verif
+
+package pipeline
+
+import "sort"
+
+// VerifInstanceNames returns the pipeline name-uniqueness set (sorted), for the
+// verification harness (h_ctl). Read-only accessor.
+func (s *Service) VerifInstanceNames() []string {
+	out := make([]string, 0, len(s.instanceNames))
+	for k, v := range s.instanceNames {
+		if v {
+			out = append(out, k)
+		}
+	}
+	sort.Strings(out)
+	return out
+}
